@@ -3361,7 +3361,25 @@ func c09r16(c *Ctx, r *Report) {
 			alias := false
 			for w := range backwardSlice(st.Val, nil, func(x ssa.Value) bool {
 				call, ok := x.(*ssa.Call)
-				return ok && call.Common().StaticCallee() == cp
+				if !ok {
+					return false
+				}
+				if call.Common().StaticCallee() == cp {
+					return true
+				}
+				// append onto a fresh (nil / newly made / literal) slice copies its operands
+				if b, isB := call.Common().Value.(*ssa.Builtin); isB && b.Name() == "append" && len(call.Call.Args) == 2 {
+					switch d := call.Call.Args[0].(type) {
+					case *ssa.Const:
+						return d.IsNil()
+					case *ssa.MakeSlice:
+						return true
+					case *ssa.Slice:
+						_, fresh := d.X.(*ssa.Alloc)
+						return fresh
+					}
+				}
+				return false
 			}) {
 				if fld, _ := loadedField(w); fld == fIn {
 					alias = true
